@@ -192,6 +192,83 @@ func kindCorpus(b int) []tcase {
 	return cs
 }
 
+// ---- symbolic links in directory position -----------------------------------
+// The paths of later headers run THROUGH a link: getNode / MkdirAll / openFile
+// resolve it (merged-usr layouts: lib64 -> lib), chains, "..", loops, dangling
+// and (in-memory backends only: the directory backend would resolve them
+// against the host's root) absolute targets.
+func linkCorpus(b int) []tcase {
+	usr := []hdr{d("usr", 0o755), d("usr/lib", 0o755)}
+	with := func(base []hdr, more ...hdr) []hdr { return append(append([]hdr{}, base...), more...) }
+	cs := []tcase{
+		{Note: "links: files shipped under usr/lib64 -> lib land in usr/lib", Pkgs: []pkg{
+			{Name: "a", Origin: "a", Files: with(usr, s("usr/lib64", "lib"), f("usr/lib/t", "T", 0o644))},
+			{Name: "b", Origin: "b", Files: []hdr{d("usr", 0o755), d("usr/lib64", 0o755), f("usr/lib64/foo", "F", 0o755)}}}},
+		{Note: "links: same file under both names, identical content", Pkgs: []pkg{
+			{Name: "a", Origin: "a", Files: with(usr, s("usr/lib64", "lib"), f("usr/lib/foo", "F", 0o644))},
+			{Name: "b", Origin: "b", Files: []hdr{d("usr", 0o755), d("usr/lib64", 0o755), f("usr/lib64/foo", "F", 0o755)}}}},
+		{Note: "links: same file under both names, other content, same origin", Pkgs: []pkg{
+			{Name: "a", Origin: "o", Files: with(usr, s("usr/lib64", "lib"), f("usr/lib/foo", "F", 0o644))},
+			{Name: "b", Origin: "o", Files: []hdr{d("usr", 0o755), d("usr/lib64", 0o755), f("usr/lib64/foo", "G", 0o755)}}}},
+		{Note: "links: same file under both names, other content, unrelated", Pkgs: []pkg{
+			{Name: "a", Origin: "a", Files: with(usr, s("usr/lib64", "lib"), f("usr/lib/foo", "F", 0o644))},
+			{Name: "b", Origin: "b", Files: []hdr{d("usr", 0o755), d("usr/lib64", 0o755), f("usr/lib64/foo", "G", 0o755)}}}},
+		{Note: "links: chain l1 -> l2 -> lib, link and hard link created through it", Pkgs: []pkg{
+			{Name: "a", Origin: "a", Files: with(usr, s("usr/l2", "lib"), s("usr/l1", "l2"), f("usr/lib/t", "T", 0o644))},
+			{Name: "b", Origin: "b", Files: []hdr{d("usr", 0o755), f("usr/l1/u", "U", 0o644), s("usr/l1/su", "u"), l("usr/l1/hu", "usr/l1/u", 0o644), d("usr/l1/sub", 0o750), f("usr/l1/sub/v", "V", 0o600)}}}},
+		{Note: "links: target with .. that climbs to the root", Pkgs: []pkg{
+			{Name: "a", Origin: "a", Files: with(usr, s("usr/lib/up", "../.."))},
+			{Name: "b", Origin: "b", Files: []hdr{d("usr", 0o755), d("usr/lib", 0o755), d("usr/lib/up/opt2", 0o755), f("usr/lib/up/opt2/f", "F", 0o644)}}}},
+		{Note: "links: dangling directory link", Pkgs: []pkg{
+			{Name: "a", Origin: "a", Files: with(usr, s("usr/lib64", "nowhere"))},
+			{Name: "b", Origin: "b", Files: []hdr{d("usr", 0o755), f("usr/lib64/foo", "F", 0o755)}}}},
+		{Note: "links: directory header through a dangling link", Pkgs: []pkg{
+			{Name: "a", Origin: "a", Files: with(usr, s("usr/lib64", "nowhere"))},
+			{Name: "b", Origin: "b", Files: []hdr{d("usr", 0o755), d("usr/lib64/sub", 0o755)}}}},
+		{Note: "links: loop, a file at the loop's name", Pkgs: []pkg{
+			{Name: "a", Origin: "o", Files: with(usr, s("usr/lib/loop", "loop"))},
+			{Name: "b", Origin: "o", Files: with(usr, f("usr/lib/loop", "L", 0o644))}}},
+		{Note: "links: loop of two, a path through it", Pkgs: []pkg{
+			{Name: "a", Origin: "o", Files: with(usr, s("usr/lib/p", "q"), s("usr/lib/q", "p"))},
+			{Name: "b", Origin: "o", Files: with(usr, f("usr/lib/p/f", "L", 0o644))}}},
+		{Note: "links: link to a regular file in directory position", Pkgs: []pkg{
+			{Name: "a", Origin: "o", Files: with(usr, f("usr/lib/t", "T", 0o644), s("usr/lib/st", "t"))},
+			{Name: "b", Origin: "o", Files: with(usr, f("usr/lib/st/f", "L", 0o644))}}},
+		{Note: "links: identical link shipped again through a linked directory", Pkgs: []pkg{
+			{Name: "a", Origin: "a", Files: with(usr, s("usr/lib64", "lib"), s("usr/lib/s", "t"))},
+			{Name: "b", Origin: "b", Files: []hdr{d("usr", 0o755), s("usr/lib64/s", "t"), s("usr/lib64/s2", "t")}}}},
+		{Note: "links: the link a file was installed through is replaced by a regular file", Pkgs: []pkg{
+			{Name: "a", Origin: "o", Files: with(usr, s("usr/lnk", "lib"))},
+			{Name: "b", Origin: "o", Files: []hdr{d("usr", 0o755), d("usr/lnk", 0o755), f("usr/lnk/s", "S", 0o644)}},
+			{Name: "c", Origin: "o", Files: []hdr{d("usr", 0o755), f("usr/lnk", "L", 0o644)}}}},
+		{Note: "links: file written through a dangling link, then replaced by a third package", Pkgs: []pkg{
+			{Name: "a", Origin: "o", Files: with(usr, s("usr/lib/x", "nowhere"))},
+			{Name: "b", Origin: "o", Files: with(usr, f("usr/lib/x", "B", 0o644))},
+			{Name: "c", Origin: "o", Files: with(usr, f("usr/lib/x", "C", 0o600))}}},
+	}
+	if b != bDirfs {
+		cs = append(cs,
+			// linkat(2) would link the symbolic link itself on the directory backend
+			tcase{Note: "links: hard link whose target name is a link", Pkgs: []pkg{
+				{Name: "a", Origin: "o", Files: with(usr, f("usr/lib/t", "T", 0o644), s("usr/lib/st", "t"))},
+				{Name: "b", Origin: "o", Files: with(usr, f("usr/lib/y", "Y", 0o644), l("usr/lib/ht", "usr/lib/st", 0o644))}}},
+			tcase{Note: "links: absolute target", Pkgs: []pkg{
+				{Name: "a", Origin: "a", Files: with(usr, s("usr/lib64", "/usr/lib"))},
+				{Name: "b", Origin: "b", Files: []hdr{d("usr", 0o755), d("usr/lib64", 0o755), f("usr/lib64/foo", "F", 0o755)}}}},
+			tcase{Note: "links: absolute target with .. is not cleaned", Pkgs: []pkg{
+				{Name: "a", Origin: "a", Files: with(usr, s("usr/lib64", "/usr/lib/../lib"))},
+				{Name: "b", Origin: "b", Files: []hdr{d("usr", 0o755), f("usr/lib64/foo", "F", 0o755)}}}},
+			tcase{Note: "links: file over a dangling absolute link", Pkgs: []pkg{
+				{Name: "a", Origin: "o", Files: with(usr, s("usr/lib/x", "/usr/lib/nowhere"))},
+				{Name: "b", Origin: "o", Files: with(usr, f("usr/lib/x", "B", 0o644))}}},
+		)
+	}
+	for i := range cs {
+		cs[i].Backend = b
+	}
+	return cs
+}
+
 // ---- random ordered package lists ------------------------------------------
 
 var filePool = []string{"usr/bin/x", "usr/bin/y", "usr/lib/l", "etc/c", "opt/d/f", "opt/d/g"}
@@ -217,6 +294,9 @@ func genCase(r *gal.Rand, b int) tcase {
 	if !kindy && r.Chance(1, 4) {
 		chain = gal.Pick(r, filePool)
 	}
+	// a directory reachable under two names: the first package ships usr/lib64 -> lib
+	// and opt/e -> d, later ones ship some of their files under the link's name
+	linky := !kindy && r.Chance(1, 6)
 	for i := 0; i < n; i++ {
 		p := pkg{Name: names[i]}
 		switch r.Intn(6) {
@@ -290,11 +370,26 @@ func genCase(r *gal.Rand, b int) tcase {
 			if !envelopeOnly && r.Chance(1, 3) {
 				h = own(h, gal.Pick(r, []int{1000, 65532, 0}), gal.Pick(r, []int{1000, 0, 42}))
 			}
+			if linky && i > 0 && r.Chance(1, 2) {
+				// the same file under the other name of its directory
+				alt := strings.Replace(strings.Replace(fp, "usr/lib/", "usr/lib64/", 1), "opt/d/", "opt/e/", 1)
+				if alt != fp && !seen[alt] {
+					seen[alt] = true
+					h.Path = alt
+					fp = alt
+				}
+			}
 			items = append(items, h)
 			if r.Chance(1, 8) {
 				lp := fp + ".ln"
 				items = append(items, l(lp, fp, h.Mode))
 			}
+		}
+		if linky && i == 0 {
+			items = append(items, s("usr/lib64", gal.Pick(r, []string{"lib", "lib", "../usr/lib", "nowhere"})), s("opt/e", gal.Pick(r, []string{"d", "d", "../opt/d", "e"})))
+			seen["usr/lib64"], seen["opt/e"] = true, true
+			// the directories the links point at
+			items = append([]hdr{d("usr/lib/keep", 0o755), d("opt/d/keep", 0o755)}, items...)
 		}
 		// directory headers for every ancestor, parents first
 		dirs := map[string]bool{}
@@ -311,6 +406,9 @@ func genCase(r *gal.Rand, b int) tcase {
 		for _, dname := range dl {
 			if seen[dname] {
 				continue // the package ships this path itself (as a file, a link or a directory)
+			}
+			if linky && (dname == "usr/lib64" || dname == "opt/e") && r.Chance(1, 2) {
+				continue
 			}
 			if malformed && r.Chance(1, 3) {
 				continue // a missing directory header
@@ -426,6 +524,9 @@ func stage(out string, seed uint64, tier string, b int) error {
 		addCase(w, c)
 	}
 	for _, c := range kindCorpus(b) {
+		addCase(w, c)
+	}
+	for _, c := range linkCorpus(b) {
 		addCase(w, c)
 	}
 	r := gal.NewRand(seed*3 + uint64(b))
